@@ -17,9 +17,9 @@ strings as the UTF-8 byte string the token denotes, arrays, objects as member li
 order (duplicates are kept: RFC 8259 §4 leaves their meaning open).
 
 `parseJSON` is total by explicit fuel (`length + 1`: every level of the recursion consumes at
-least one byte before it recurses).  That this much fuel is enough is PROVED for every text the
-encoder writes (Props `C10_document_out`); for arbitrary texts it is the OPEN statement
-`C10_parse_fuel_stmt`, and the parser is compared with Go's encoding/json on every run.
+least one byte before it recurses).  That this much fuel is always enough, for arbitrary texts,
+is proved (Props `C10_parse_fuel`, `C10_parse_fuel_mono`); the parser is also compared with Go's
+encoding/json on every run.
 -/
 import CueVerif.Spec.Json
 namespace CueVerif.Json
